@@ -191,7 +191,7 @@ Section PollLoop.
 
   (* the body of one iteration after the delay has been computed; `nodelay` = select(None), which
      is only used when no event is queued (otherwise the delay is zero).  The result of a
-     completed iteration carries whether select reported the tty writable. *)
+     completed iteration carries whether the write step sent at least one byte (`sent_some`). *)
   Definition round_body (s : pstate) (r : round_env) (nodelay : bool)
     : (pres * pstate) + (pstate * bool) (* inl = poll is over; inr = next iteration *) :=
     let s0 := arrive_all s (r_before r) in
@@ -208,7 +208,7 @@ Section PollLoop.
       | inl s1 =>
           match reads s1 r sig_ready wk_ready in_ready with
           | inl x => inl x
-          | inr s7 => inr (s7, writable)
+          | inr s7 => inr (s7, negb (Nat.eqb (sent (io s1)) (sent (io s0))))
           end
       end.
 
@@ -226,9 +226,10 @@ Section PollLoop.
           else
             match round_body s r (negb finite) with
             | inl (res, s') => (res, s', rest)
-            | inr (s', writable) =>
-                (* an event is ready and the tty takes no more output right now *)
-                if negb (events_empty s') && negb writable then (pop_ret s', rest)
+            | inr (s', sent_some) =>
+                (* an event is ready and the tty took no output in this iteration (not writable, or
+                   writable and the write was refused) *)
+                if negb (events_empty s') && negb sent_some then (pop_ret s', rest)
                 else poll_loop finite false s' rest
             end
       end.
